@@ -84,11 +84,10 @@ def run(chk):
                 chk.count("roll_writes")
                 if nfiles > maxcount:
                     chk.violation("more log files kept than the configured count", desc, expected=f"<= {maxcount}", observed=nfiles)
-                if cur is not None and cur >= maxsize + (b or 0) and maxsize >= 1 and prev is not None and prev[0] == h:
-                    pcur = prev[1]
-                    # allowed only if the file was already oversize before this run started (left by the previous run at most one write over)
-                    if pcur is not None and pcur < maxsize:
-                        chk.violation("log file grew beyond its size limit by more than one write", desc, expected=f"< {maxsize}+{b}", observed=cur)
+                if cur is not None and cur >= maxsize + (b or 0) and maxsize >= 1:
+                    # a file that has reached the limit is rolled before the next write, also when an earlier run left it that way:
+                    # after a write of b bytes the current file is always shorter than limit + b
+                    chk.violation("log file grew beyond its size limit by more than one write", desc, expected=f"< {maxsize}+{b}", observed=cur)
                 if prev is not None and prev[0] == h and len(arch) < len(prev[2]) + 1 and prev[2] and arch:
                     # oldest first: what is kept must be a suffix of (old archives + maybe the rolled file)
                     old = prev[2] + ([prev[1]] if prev[1] is not None else [])
@@ -138,6 +137,63 @@ def run(chk):
                     chk.disagreement("event-cap", {"cap": cap, "before": before, "burst_ms": ms}, "%d..%d" % (want, min(cap, want + extra)), after)
                 if before >= cap:
                     chk.count("event_flush_at_cap")
+        # ---------------- shutdown while events are queued, with the directory at / below its cap (one process per shutdown)
+        for pre in ([cap, cap - 1] if chk.tier == "quick" else [cap, cap - 1, cap, 0, cap - 2, cap]):
+            e2 = Eng(exe, sd)
+            try:
+                dname = "evstop%d_%d" % (pre, rng.below(10 ** 6))
+                e2.ctl(f"evstart {dname} {cap}")
+                before = int(e2.ctl("evpre %d" % pre)) if pre else 0
+                after = int(e2.ctl("evstop %d" % rng.pick([1, 5, 120])))
+                chk.case(nontrivial_key=("evstop", pre, after))
+                chk.count("event_shutdown_flush")
+                if after > cap:
+                    chk.violation("event directory holds more files than its cap after a shutdown flush", {"cap": cap, "before": before, "after": after},
+                                  expected=f"<= {cap}", observed=after)
+                elif after > before + 1:
+                    chk.disagreement("event-cap", {"cap": cap, "before": before, "op": "shutdown flush"}, "<= %d" % (before + 1), after)
+            finally:
+                e2.close()
+        # ---------------- leftovers of a killed run (temp files) count as files of the directory
+        e3 = Eng(exe, sd)
+        try:
+            dname = "evtmp%d" % rng.below(10 ** 6)
+            e3.ctl(f"evstart {dname} {cap}")
+            n0 = int(e3.ctl("evpretmp %d" % (cap - 2)))
+            last = n0
+            for _ in range(6):
+                last = int(e3.ctl("evwrite %d" % rng.rand_range(1, 5)).split(" ")[0])
+            chk.case(nontrivial_key=("evtmp", n0, last))
+            chk.count("event_dir_with_leftover_temp_files")
+            if last > cap:
+                chk.violation("event directory holds more files than its cap (temp files left by a killed run are files too)",
+                              {"cap": cap, "leftover_tmp_files": cap - 2, "after": last}, expected=f"<= {cap}", observed=last)
+        finally:
+            e3.close()
+        # ---------------- the cap as configured (proxy-agent.json), boundary values included: one process per value
+        for cfgcap in ([0, 2] if chk.tier == "quick" else [0, 1, 2, 5]):
+            sd2 = vlib.scratch_dir("c19cfg")
+            try:
+                exe2 = os.path.join(sd2, "harness")
+                shutil.copyfile(binp, exe2); os.chmod(exe2, 0o755)
+                json.dump({"logFolder": sd2 + "/logs", "eventFolder": sd2 + "/ev", "latchKeyFolder": sd2 + "/keys", "monitorIntervalInSeconds": 60,
+                           "pollKeyStatusIntervalInSeconds": 15, "hostGAPluginSupport": 1, "ebpfProgramName": "e.o", "maxEventFileCount": cfgcap},
+                          open(sd2 + "/proxy-agent.json", "w"))
+                e4 = Eng(exe2, sd2)
+                try:
+                    got_cap = int(e4.ctl("evstartcfg evc"))
+                    last = 0
+                    for _ in range(cfgcap + 4):
+                        last = int(e4.ctl("evwrite %d" % rng.rand_range(1, 5)).split(" ")[0])
+                    chk.case(nontrivial_key=("evcfg", cfgcap, last))
+                    chk.count("configured_event_cap_%d" % cfgcap)
+                    if last > cfgcap:
+                        chk.violation("event directory holds more files than the configured cap", {"maxEventFileCount": cfgcap, "cap_used_by_the_agent": got_cap,
+                                                                                                    "after": last}, expected=f"<= {cfgcap}", observed=last)
+                finally:
+                    e4.close()
+            finally:
+                shutil.rmtree(sd2, ignore_errors=True)
         # ---------------- rule dumps
         nd = 12 if chk.tier == "quick" else 400
         for h in range(nd):
